@@ -138,7 +138,7 @@ def m_deref(ctx):
 def m_asref(ctx): return ctx.ret(ctx.args[0])
 @model(r'^(?:std::string::)?String::as_str$|^(?:std::string::)?String::as_mut_str$|^<String as .*>::as_str$|KebabString::as_str$|KebabStr::as_str$|^std::path::PathBuf::as_path$')
 def m_as_str(ctx): return ctx.ret(ctx.args[0])
-@model(r'^<(?:str|String|std::string::String|&str|&String|&&str) as (?:ToString|ToOwned|Clone)>::(?:to_string|to_owned|clone)$|^<String as From<&(?:mut )?(?:str|String)>>::from$|^<str as Into<String>>::into$|^<&str as Into<String>>::into$|^core::str::<impl str>::to_owned$|^<&str as Into<Box<str>>>::into$')
+@model(r'^<(?:str|String|std::string::String|&str|&String|&&str) as (?:ToString|ToOwned|Clone)>::(?:to_string|to_owned|clone)$|^<String as From<&(?:mut )?(?:str|String)>>::from$|^<str as Into<String>>::into$|^<&str as Into<String>>::into$|^<&str as Into<std::string::String>>::into$|^<str as Into<std::string::String>>::into$|^core::str::<impl str>::to_owned$|^<&str as Into<Box<str>>>::into$')
 def m_to_string(ctx):
     v0 = ctx.deref(ctx.args[0])
     if isinstance(v0, Opaque): return ctx.ret(v0)
